@@ -417,6 +417,11 @@ func (g *schemaGen) clusterSchema() map[string]any {
 			}
 		case 1:
 			s["patternProperties"] = entries(subset(c, patternPool, 2, 3))
+			if c.W(12) == 0 {
+				// one key that is no regular expression next to keys that are: Resolve refuses the
+				// document, whatever the order in which it looks at the keys
+				s["patternProperties"].(map[string]any)[pick(c, []string{"(", "[a", "^(?!x)"})] = g.cluster()
+			}
 		case 2:
 			s["properties"] = entries(subset(c, propPool, 2, 4))
 		case 3:
